@@ -17,7 +17,7 @@ import (
 // SIGSEGV anyway is repeated (child.go). D9 and D10 are still reported with one P.
 func TestProps(t *testing.T) {
 	defer runtime.GOMAXPROCS(runtime.GOMAXPROCS(1))
-	harness.Main(t, "C17", GetSCTs, Distributor, Proxy, Weights, Hammer, RootChange, GetSCTsIsolated, DistributorIsolated)
+	harness.Main(t, "C17", GetSCTs, Distributor, Proxy, Weights, Hammer, RootChange, Outage, GetSCTsIsolated, DistributorIsolated)
 }
 
 // TestChild executes one case of a race sub-property in a process of its own (see child.go).
